@@ -221,10 +221,10 @@ func RunC04(run *vk.Run) {
 			run.Infra(err)
 			return
 		}
-		resetAddr := uint32(0xff0000ff)
-		if i%3 == 1 {
-			resetAddr = 0x8123f0a0
-		}
+		// AP reset vectors: the fixture's address and addresses with every nibble of the low half set
+		// (rip = low 16 bits, cs.base = high 16 bits); chosen independently of the sampling stride
+		resetPool := []uint32{0xff0000ff, 0x8123f0a0, 0xfffff05c, 0x00019000, 0xabcd1234}
+		resetAddr := resetPool[(uint32(i)*2654435761>>11)%uint32(len(resetPool))]
 		img, err := buildSnpImage(c.Fw, run.Seed*7+int64(i), resetAddr)
 		if err != nil {
 			run.Infra(err)
